@@ -85,8 +85,15 @@ func (tc *TypeCtx) GlobalKey(g *ssa.Global) string {
 	if g.Pkg != nil {
 		pk = shortPkg(g.Pkg.Pkg.Path())
 	}
-	return registerHeapKey("G$"+sanitize(pk+"."+g.Name()), tc.SortOf(et))
+	prefix := "G$"
+	if immutableGlobals[g] {
+		prefix = "GI$" // never reassigned after package initialisation: one value in every state
+	}
+	return registerHeapKey(prefix+sanitize(pk+"."+g.Name()), tc.SortOf(et))
 }
+
+// immutableGlobals is filled by Gen.computeImmutableGlobals.
+var immutableGlobals = map[*ssa.Global]bool{}
 
 // project reads through a selector path starting at value v.
 func (fx *FnExec) project(v Term, path []Sel) Term {
